@@ -166,6 +166,29 @@ func ECCA() *ecdsa.PrivateKey {
 
 // MintVia mints a leaf for any public key, issued (signed) by any signer under the given issuer name.
 func MintVia(subjectPub any, ca crypto.Signer, issuer pkix.Name, serial *big.Int, subj string) (*x509.Certificate, error) {
+	return MintProfile(subjectPub, ca, issuer, serial, subj, "")
+}
+
+// MintProfile: as MintVia with another certificate profile for the leaf: "ca" (basicConstraints CA,
+// keyUsage keyCertSign+cRLSign: how many self-made PK/KEK/db certificates look), "nousage" (no
+// keyUsage or extendedKeyUsage extension at all), "" (digitalSignature + codeSigning).
+func MintProfile(subjectPub any, ca crypto.Signer, issuer pkix.Name, serial *big.Int, subj, profile string) (*x509.Certificate, error) {
+	if profile != "" {
+		parent := &x509.Certificate{
+			SerialNumber: big.NewInt(1), Subject: issuer, NotBefore: notBefore, NotAfter: notAfter,
+			IsCA: true, BasicConstraintsValid: true, KeyUsage: x509.KeyUsageCertSign,
+		}
+		tmpl := &x509.Certificate{SerialNumber: serial, Subject: pkix.Name{CommonName: subj}, NotBefore: notBefore, NotAfter: notAfter}
+		if profile == "ca" {
+			tmpl.IsCA, tmpl.BasicConstraintsValid = true, true
+			tmpl.KeyUsage = x509.KeyUsageCertSign | x509.KeyUsageCRLSign
+		}
+		der, err := x509.CreateCertificate(rand.Reader, tmpl, parent, subjectPub, ca)
+		if err != nil {
+			return nil, fmt.Errorf("mint: %w", err)
+		}
+		return x509.ParseCertificate(der)
+	}
 	parent := &x509.Certificate{
 		SerialNumber: big.NewInt(1), Subject: issuer, NotBefore: notBefore, NotAfter: notAfter,
 		IsCA: true, BasicConstraintsValid: true, KeyUsage: x509.KeyUsageCertSign,
